@@ -10,6 +10,7 @@ import (
 
 	"github.com/anoideaopen/foundation/core/types"
 	"github.com/anoideaopen/foundation/core/types/big"
+	pb "github.com/anoideaopen/foundation/proto"
 	"github.com/anoideaopen/foundation/token"
 )
 
@@ -206,4 +207,104 @@ func (t *VT) QueryCfgDump() (string, error) {
 // route without nonce bookkeeping).
 func (t *VT) NBTxTransferNb(sender *types.Sender, to *types.Address, amount *big.Int, ref string) error {
 	return t.TxTransfer(sender, to, amount, ref)
+}
+
+// TxLedgerApi calls one function of the balance API (core/bc_balances.go) by name.
+// call = fn|a|b|tok|amt   or, for the multi-asset functions,   fn|a|b|group:amount,group:amount
+func (t *VT) TxLedgerApi(_ *types.Sender, call string) error {
+	p := strings.Split(call, "|")
+	if len(p) < 4 {
+		return errors.New("bad call")
+	}
+	a, err := types.AddrFromBase58Check(p[1])
+	if err != nil {
+		return err
+	}
+	var b *types.Address
+	if p[2] != "" {
+		if b, err = types.AddrFromBase58Check(p[2]); err != nil {
+			return err
+		}
+	}
+	if len(p) == 4 {
+		var assets []*pb.Asset
+		if p[3] != "" {
+			for _, it := range strings.Split(p[3], ",") {
+				q := strings.SplitN(it, ":", 2)
+				if len(q) != 2 {
+					return errors.New("bad asset")
+				}
+				n, ok := new(big.Int).SetString(q[1], 10)
+				if !ok {
+					return errors.New("bad amount")
+				}
+				assets = append(assets, &pb.Asset{Group: q[0], Amount: n.Bytes()})
+			}
+		}
+		switch p[0] {
+		case "allowedIndAdd":
+			return t.AllowedIndustrialBalanceAdd(a, assets, "api")
+		case "allowedIndSub":
+			return t.AllowedIndustrialBalanceSub(a, assets, "api")
+		case "allowedIndTransfer":
+			return t.AllowedIndustrialBalanceTransfer(a, b, assets, "api")
+		}
+		return errors.New("unknown multi-asset function " + p[0])
+	}
+	tok := p[3]
+	n, ok := new(big.Int).SetString(p[4], 10)
+	if !ok {
+		return errors.New("bad amount")
+	}
+	switch p[0] {
+	case "tokenAdd":
+		return t.TokenBalanceAdd(a, n, "api")
+	case "tokenAddWithReason":
+		return t.TokenBalanceAddWithReason(a, n, "api")
+	case "tokenAddWithTicker":
+		return t.TokenBalanceAddWithTicker(a, n, tok, "api")
+	case "tokenSub":
+		return t.TokenBalanceSub(a, n, "api")
+	case "tokenSubWithTicker":
+		return t.TokenBalanceSubWithTicker(a, n, tok, "api")
+	case "tokenTransfer":
+		return t.TokenBalanceTransfer(a, b, n, "api")
+	case "tokenLock":
+		return t.TokenBalanceLock(a, n)
+	case "tokenUnlock":
+		return t.TokenBalanceUnlock(a, n)
+	case "tokenTransferLocked":
+		return t.TokenBalanceTransferLocked(a, b, n, "api")
+	case "tokenBurnLocked":
+		return t.TokenBalanceBurnLocked(a, n, "api")
+	case "indAdd":
+		return t.IndustrialBalanceAdd(tok, a, n, "api")
+	case "indSub":
+		return t.IndustrialBalanceSub(tok, a, n, "api")
+	case "indTransfer":
+		return t.IndustrialBalanceTransfer(tok, a, b, n, "api")
+	case "indLock":
+		return t.IndustrialBalanceLock(tok, a, n)
+	case "indUnlock":
+		return t.IndustrialBalanceUnLock(tok, a, n)
+	case "indTransferLocked":
+		return t.IndustrialBalanceTransferLocked(tok, a, b, n, "api")
+	case "indBurnLocked":
+		return t.IndustrialBalanceBurnLocked(tok, a, n, "api")
+	case "allowedAdd":
+		return t.AllowedBalanceAdd(tok, a, n, "api")
+	case "allowedSub":
+		return t.AllowedBalanceSub(tok, a, n, "api")
+	case "allowedTransfer":
+		return t.AllowedBalanceTransfer(tok, a, b, n, "api")
+	case "allowedLock":
+		return t.AllowedBalanceLock(tok, a, n)
+	case "allowedUnlock":
+		return t.AllowedBalanceUnLock(tok, a, n)
+	case "allowedTransferLocked":
+		return t.AllowedBalanceTransferLocked(tok, a, b, n, "api")
+	case "allowedBurnLocked":
+		return t.AllowedBalanceBurnLocked(tok, a, n, "api")
+	}
+	return errors.New("unknown function " + p[0])
 }
